@@ -57,8 +57,11 @@ TEXT = {
           "form - well-formed intervals, consecutive ones separated by a gap that cannot be closed (C13_union_nf; gap_sep: such a gap "
           "separates the sets); membership by binary search agrees with the denoted set for every list in normal form and every finite "
           "value (C13_contains, loop invariant over the array bounds); lp_interval_contains_int / lp_feasibility_set_contains_int answer "
-          "true exactly when an integer lies in the set (C13_containsInt, C13_set_containsInt, via floor / ceiling). Status bits, normal "
-          "form of intersections, integer counts, point / fullness tests and picking are tied by correspondence only (exhaustive over all "
+          "true exactly when an integer lies in the set (C13_containsInt, C13_set_containsInt, via floor / ceiling); a list in that "
+          "normal form is non-empty, increasing and pairwise separated (nfs_nfw, so the theorems about normal forms apply to every "
+          "union), and emptiness, the single-point test and fullness agree with the denoted set (C13_isEmpty, C13_isPoint, "
+          "C13_isFull: a normal form containing every real is the single interval (-inf,+inf)). Status bits, normal "
+          "form of intersections, integer counts and picking are tied by correspondence only (exhaustive over all "
           "128x128 normal-form sets on the atoms of {0,1,2}, 512x512 in the thorough tier, plus random pools with algebraic end points, "
           "half of them handed over with the unrefined isolating interval of the root isolation; pick / contains_int / count_int also on "
           "every interval separately).",
